@@ -22,6 +22,7 @@ LEVEL_TEXT = ("Every exponent in a range is pushed through construction -> expon
 EXHAUSTIVE_PARTS = ("quick: exponents 0..4095 completely, then every 97th up to 55000 plus boundary sets (58..70, 126..130, "
                     "195..199, 254..258, 2047..2049, 55230..55240, 57280..57290, 65470..65480, 1114040..1114052); pairs "
                     "(a,b) from the boundary set; thorough: every exponent below 55000 and all pairs with a+b <= 600")
+FUZZ_RUNS = {"thorough": 3000}  # atheris/libFuzzer campaign over the same strategy and oracle
 RULE = (
     "(a) exponent e: polynomial_from_attributes([[e]],[1]) -> .exponents == [[e]] -> polynomial(p.values, names) has "
     "the same term -> pickle round-trip -> (with a second indeterminate) the two-column key decodes to (e, 1); values "
